@@ -7,7 +7,9 @@ CONSTANTS
   DropChoices <- DropsUpTo4
   H = 1
   PStalls = {0}
+  Observe = FALSE
+  SkipIdxStep = FALSE
   CStalls = {0}
-INVARIANTS PrefixOfRef CompleteIfNoDrop DropExact ChanBound DoneIsFinal
+INVARIANTS PrefixOfRef CompleteIfNoDrop DropExact ChanBound DoneIsFinal PublishIdxMonotone FoldUpToDate FinalTableComplete
 PROPERTIES Termination DropTerminates
 CHECK_DEADLOCK FALSE
